@@ -52,6 +52,9 @@ pub struct Session {
     pub n_oracle_failures: u64,
     pub oracle_failures_by_site: BTreeMap<String, u64>,
     pub oracle_checks: u64,
+    /// how often each oracle clause was evaluated (clause name, count); `clause_last` caches the hot entry
+    pub oracle_clauses: Vec<(String, u64)>,
+    clause_last: usize,
     pub samples: Vec<String>,
     pub exhaustive: Vec<String>,
     pub notes: Vec<String>,
@@ -113,6 +116,8 @@ impl Session {
             n_oracle_failures: 0,
             oracle_failures_by_site: BTreeMap::new(),
             oracle_checks: 0,
+            oracle_clauses: vec![],
+            clause_last: 0,
             samples: vec![],
             exhaustive: vec![],
             notes: vec![],
@@ -194,8 +199,25 @@ impl Session {
         }
     }
 
+    pub fn count_clause(&mut self, clause: &str, n: u64) {
+        if let Some(i) = self.oracle_clauses.iter().position(|e| e.0 == clause) {
+            self.oracle_clauses[i].1 += n;
+        } else {
+            self.oracle_clauses.push((clause.to_string(), n));
+        }
+    }
+
     pub fn check(&mut self, cond: bool, clause: &str, site: &str, input: impl FnOnce() -> String, detail: impl FnOnce() -> String) {
         self.oracle_checks += 1;
+        if self.clause_last < self.oracle_clauses.len() && self.oracle_clauses[self.clause_last].0 == clause {
+            self.oracle_clauses[self.clause_last].1 += 1;
+        } else if let Some(i) = self.oracle_clauses.iter().position(|e| e.0 == clause) {
+            self.oracle_clauses[i].1 += 1;
+            self.clause_last = i;
+        } else {
+            self.oracle_clauses.push((clause.to_string(), 1));
+            self.clause_last = self.oracle_clauses.len() - 1;
+        }
         if !cond {
             self.fail(clause, site, input(), detail());
         }
@@ -347,6 +369,16 @@ impl Session {
         s.push_str("  \"distribution\": {");
         let mut first = true;
         for (k, v) in &self.distribution {
+            if !first {
+                s.push_str(", ");
+            }
+            first = false;
+            s.push_str(&format!("{}: {}", jstr(k), v));
+        }
+        s.push_str("},\n");
+        s.push_str("  \"oracle_clauses\": {");
+        let mut first = true;
+        for (k, v) in &self.oracle_clauses {
             if !first {
                 s.push_str(", ");
             }
